@@ -610,7 +610,7 @@ func parserCore(c *Ctx) []*ast.FuncDecl {
 func c04Panics(c *Ctx) {
 	a := c.E3()
 	core := parserCore(c)
-	c.R.Floor("C04.R5", len(core), 6)
+	c.R.Floor("C04.R5", len(core), 4)
 	// parseField's possible result types
 	var fieldKinds []string
 	if pf := c.Decl("parseField"); pf != nil {
@@ -918,7 +918,7 @@ func (c *Ctx) parserSliceSafe(fd *ast.FuncDecl, se *ast.SliceExpr) string {
 
 func c04Determinism(c *Ctx) {
 	core := parseClosure(c)
-	c.R.Floor("C04.R6", len(core), 10)
+	c.R.Floor("C04.R6", len(core), 7)
 	for _, fd := range core {
 		name := declName(fd)
 		why := ""
@@ -1317,7 +1317,7 @@ func c20Formats(c *Ctx) {
 			}
 		}
 	}
-	c.R.Floor("C20.R4", n, 4)
+	c.R.Floor("C20.R4", n, 3)
 }
 
 // collectInts gathers the integer-typed leaves that are formatted into a message: arguments of Errorf/Sprintf and of Itoa/FormatInt.
